@@ -279,7 +279,7 @@ def growth(rng, kind, n, start=None, removes=0.1):
             live.pop()
         if rng.random() < 0.05:
             ops.append("%s has 0 %s" % (kind, kstr(kind, rng.choice(keys))))
-        if i in (223, 224, 225, 226, 1791, 1792, 1793, 1794) or rng.random() < 0.004:
+        if i in (223, 224, 225, 226, 448, 449, 450, 1791, 1792, 1793, 1794, 3584, 3585, 3586) or rng.random() < 0.004:
             ops.append("%s len 0" % kind)
             ops.append("%s dump 0" % kind)
     ops.append("%s clone 0 1" % kind)
@@ -322,7 +322,9 @@ def gen(rng, tier):
     if not q:
         for kind in HASHED + SETS:
             cases.append(growth(rng, kind, 1900, rng.choice([None, 2, 32]), removes=0.05))
-        cases.append(growth(rng, "si", 15000, None, removes=0.01))
+        # a 1-bucket table crosses 2, 8, 57, 449 and 3585 entries (tables of 8 .. 32768 buckets)
+        cases.append(growth(rng, "si", 3700, 1, removes=0.01))
+        cases.append(growth(rng, "hs", 3700, 1, removes=0.0))
     return cases
 
 
